@@ -395,6 +395,28 @@ class Interp:
                 for i, v in enumerate(vs):
                     if v["discr"] != "" and int(v["discr"]) == tagv:
                         return En({i: ()})
+            enc = m.get("tag_encoding")
+            if isinstance(enc, dict) and "Niche" in enc:
+                # niche-encoded enum (e.g. Option<bool>): the tag field holds niche_start + (variant - first niche variant)
+                # for the data-less niche variants, any other value is the untagged variant's own data
+                ni = enc["Niche"]
+                tag = m.get("tag", {}).get("Initialized", {}).get("value", {}).get("Int")
+                offs = lay["fields"]["Arbitrary"]["offsets"] if isinstance(lay.get("fields"), dict) and "Arbitrary" in lay["fields"] else None
+                if tag and offs:
+                    tsize = {"I8": 1, "I16": 2, "I32": 4, "I64": 8, "I128": 16}[tag["length"]]
+                    toff = off + offs[m.get("tag_field", 0)]["num_bits"] // 8
+                    tv = int.from_bytes(data[toff:toff + tsize], "little")
+                    lo_v, hi_v = ni["niche_variants"]["start"], ni["niche_variants"]["end"]
+                    rel = (tv - ni["niche_start"]) % (1 << (8 * tsize))
+                    if rel <= hi_v - lo_v:
+                        vi = lo_v + rel
+                        if not vs[vi]["fields"]:
+                            return En({vi: ()})
+                    else:
+                        ui = ni["untagged_variant"]
+                        fo = m["variants"][ui]["offsets"]
+                        fields = tuple(self.decode(st, f["ty"], data, ptrs, off + o["num_bits"] // 8) for f, o in zip(vs[ui]["fields"], fo))
+                        return En({ui: fields})
         raise Unsupported(f"enum constant {t.s}")
 
     def const_seq(self, st, ety, aid, off, n):
@@ -605,6 +627,14 @@ class Interp:
             z = self.kbits_binop(st, op.replace("Unchecked", ""), a, b, rty, taint)
             if z is not None:
                 return z
+            # `x >> k` and `x & (2^k - 1)` on a non-negative x are `x / 2^k` and `x % 2^k`: analyse them as such, so that the
+            # quotient/remainder relations (cursor = 8 * byte + bit) are the same whichever way the code is written
+            if la >= 0 and op in ("Shr", "ShrUnchecked") and lb == hb and 0 < lb < 63 and self.prog.ty(a.ty).tag == "Uint":
+                return self.binop(st, "Div", a, self.ctx.const_int(st, 1 << lb, a.ty), dest_ty, False)
+            if op == "BitAnd":
+                for x_, c_lo, c_hi, x_lo in ((a, lb, hb, la), (b, la, ha, lb)):
+                    if c_lo == c_hi and c_lo > 0 and (c_lo & (c_lo + 1)) == 0 and x_lo >= 0 and self.prog.ty(x_.ty).tag == "Uint":
+                        return self.binop(st, "Rem", x_, self.ctx.const_int(st, c_lo + 1, x_.ty), dest_ty, False)
         res = None
         facts = []   # (coef about a): z - a in [dlo, dhi]
         scale = None
@@ -996,7 +1026,12 @@ class Interp:
             return allb, lo & allb
         p = st.prov.get(v.vid)
         if p and p[0] == "kbits":
-            return p[2][0] & allb, p[2][1] & allb
+            m, val = p[2][0] & allb, p[2][1] & allb
+            if lo >= 0:
+                m |= allb & ~((1 << hi.bit_length()) - 1)       # the interval bounds the width: higher bits are 0
+                val &= ~(allb & ~((1 << hi.bit_length()) - 1)) | (p[2][1] & p[2][0])
+                val &= allb
+            return m, val & m
         if lo == 0 and hi == 1:
             return allb & ~1, 0            # a bool widened to an integer: every bit but the lowest is 0
         return None
@@ -1332,6 +1367,14 @@ class Interp:
         la, ha = st.itv[a]
         lb, hb = st.itv[b]
         if op == "Lt":
+            # a strict bound that only removes one end value of the other operand is a disequality with that value
+            # (`0 < x` on an unsigned x is `x != 0`): let the disequality refinements (remainders, ...) see it
+            if la == ha == lb and hb > lb:
+                self.exclude(st, b, la)
+            elif lb == hb == ha and la < ha:
+                self.exclude(st, a, lb)
+            la, ha = st.itv[a]
+            lb, hb = st.itv[b]
             self.set_itv(st, a, la, hb - 1)
             self.set_itv(st, b, st.itv[a][0] + 1, hb)
             self.add_fact_closed(st, a, b, -1)
